@@ -158,13 +158,23 @@ def _case(ctx: Ctx, typ=None, dim=None, Lmax=6):
         cs[0] = [0.0] * dim
     w = [_r(rng.uniform(-0.5, 1.5)) for _ in range(n)]
     f = [_r(rng.uniform(-2, 2)) for _ in range(n)]
-    return dict(typ=typ, L=L, dim=dim, pts=pts, w=w, f=f, cs=cs)
+    # the function values may be of any numeric dtype ("all function value arrays"): integer counts,
+    # boolean indicator masks and single-precision arrays must give the same quadrature as their
+    # float64 conversion
+    fdtype = rng.choice(["float64"] * 6 + ["int64", "int32", "bool", "float32"])
+    if fdtype.startswith("int"):
+        f = [float(rng.randint(-3, 4)) for _ in range(n)]
+    elif fdtype == "bool":
+        f = [float(rng.random() < 0.5) for _ in range(n)]
+    elif fdtype == "float32":
+        f = [float(np.float32(x)) for x in f]
+    return dict(typ=typ, L=L, dim=dim, pts=pts, w=w, f=f, cs=cs, fdtype=fdtype)
 
 
 def _impl_moments(case, flen=None, cdim=None):
     bg = importlib.import_module("grid.basegrid")
     g = bg.Grid(np.array(case["pts"], dtype=float), np.array(case["w"], dtype=float))
-    f = np.array(case["f"], dtype=float)
+    f = np.array(case["f"], dtype=float).astype(case.get("fdtype", "float64"))
     cs = np.array(case["cs"], dtype=float)
     try:
         vals, orders = g.moments(case["L"], cs, f, type_mom=case["typ"], return_orders=True)
@@ -265,7 +275,7 @@ def corr(ctx: Ctx):
         lines.append(_line(c, c["_tabs"]))
     ans = driver_batch(lines)
     for c, a in zip(cases + extra, ans):
-        pub = {k: c[k] for k in ("typ", "L", "dim", "pts", "w", "f", "cs")}
+        pub = {k: c[k] for k in ("typ", "L", "dim", "pts", "w", "f", "cs", "fdtype") if k in c}
         tag, vals, orders = _impl_moments(c)
         rejected = tag != "ok"
         ctx.count(["moments", pub], nontrivial=(c["L"] >= 2 or len(c["cs"]) >= 2 or c["dim"] < 3 or rejected),
@@ -369,7 +379,7 @@ from grid.basegrid import Grid
 {ref_src}
 case = {case!r}
 g = Grid(np.array(case['pts'], dtype=float), np.array(case['w'], dtype=float))
-vals, orders = g.moments(case['L'], np.array(case['cs'], dtype=float), np.array(case['f'], dtype=float), type_mom=case['typ'], return_orders=True)
+vals, orders = g.moments(case['L'], np.array(case['cs'], dtype=float), np.array(case['f'], dtype=float).astype(case.get('fdtype', 'float64')), type_mom=case['typ'], return_orders=True)
 orders = np.asarray(orders); orders = orders.reshape(-1, 1) if orders.ndim == 1 else orders
 want_orders = ref_all_orders(case['L'], case['typ'], case['dim'])
 assert [list(map(int, r)) for r in orders] == want_orders, f'order list {{orders.tolist()}} is not the documented Horton order {{want_orders}}'
@@ -439,7 +449,7 @@ def oracle(ctx: Ctx, budget: str):
     for c in cases:
         if c["typ"] == "pure-radial" and c["L"] == 0:
             c["L"] = 1
-        pub = {k: c[k] for k in ("typ", "L", "dim", "pts", "w", "f", "cs")}
+        pub = {k: c[k] for k in ("typ", "L", "dim", "pts", "w", "f", "cs", "fdtype") if k in c}
         key = f"basegrid.moments:{c['typ']}" + (f":dim{c['dim']}" if c["dim"] != 3 else "")
         snip = SNIPPET.format(ref_src=REF_SRC, case=pub)
         try:
